@@ -344,8 +344,11 @@ def check_resume(ctx):
 
 
 def check_wipe(ctx):
-    """C20 (hash part): after XXX_Final / HMAC_XXX_Final every byte of the context object is zero;
-    the model's returned context is all-zero (proved: C20_*_final_zeroes_ctx)."""
+    """C20 (hash part): after XXX_Final / HMAC_XXX_Final every byte of the context object is zero.
+    Property itself: the flag the C driver computes from the real struct must be "z" (a "nz" is a
+    failing input whatever the model says).  Correspondence: the extracted model - whose Final
+    functions zero exactly the fields in the zero set the Coq interpreter derives from the
+    REGENERATED statement lists of the C Final functions (coq/Alg/HashWipe.v) - must give the same flag."""
     sub = "hash-wipe"
     exe, mexe = build(ctx, sub)
     if not exe:
@@ -367,8 +370,20 @@ def check_wipe(ctx):
                 key = rand_bytes(ctx, r.choice(KEY_LENS))
                 cases.append(("hmac-%s s %s %s" % (alg, hx(key), " ".join(hx(p) for p in parts))).rstrip())
                 ctx.count("wipe.%s" % alg, 2)
+            for _ in range(ctx.n(6, 120)):
+                # a hand-set context (arbitrary state words, count, buffer) through Update* and Final
+                c0, c1 = r.getrandbits(32), r.getrandbits(32) & ~7
+                if alg == "sha256":
+                    c0, c1 = r.getrandbits(64) & ~7, 0
+                elif alg == "md5":
+                    c0, c1 = c1, c0
+                nst = {"sha256": 32, "sha1": 20, "md5": 16}[alg]
+                parts = [rand_bytes(ctx, r.randrange(0, 130)) for _ in range(r.randrange(0, 3))]
+                cases.append(("resume-%s %s %x %x %s %s" % (alg, hx(rand_bytes(ctx, nst)), c0, c1, hx(rand_bytes(ctx, 64)),
+                                                           " ".join(hx(p) for p in parts))).rstrip())
+                ctx.count("wipe.%s.hand_set_context" % alg)
         cases = corpus(("sha", "md5", "hmac-")) + spread(ctx, cases)
-        cases = [c for c in cases if len(c.split()) >= 2 and c.split()[1] == "s"]
+        cases = [c for c in cases if len(c.split()) >= 2 and (c.split()[1] == "s" or c.startswith("resume-"))]
     # the repository's own optimisation level decides whether a wipe survives: plain -O2 build too
     exe2, err = vlib.build_c("drv_hash_o2", "drv_hash.c", SOURCES, asan=False, cpuconfig="/dev/null")
     if not exe2:
@@ -376,18 +391,17 @@ def check_wipe(ctx):
         return
     model, _ = vlib.run_sharded(mexe, cases)
     mflag = only_flag(model)
+    want = ["z"] * len(cases)
     for name, e in (("asan", exe), ("O2", exe2)):
         impl, st = vlib.run_sharded(e, cases, env={"ASAN_OPTIONS": "detect_leaks=1:abort_on_error=0"})
         if name == "asan":
             vlib.sanitizer_reports(ctx, sub, st)
-        vlib.compare(ctx, sub, cases, only_flag(impl), mflag,
-                     property_pred=lambda c, a, b: (a != "z", None))
-    for c, f in zip(cases, mflag):
-        if f != "z":
-            ctx.fail(sub, "tie", c, "model context not zero after Final", property_fails=False)
+        # impl flag != "z": the property fails on this input; impl flag != model flag: correspondence broken
+        vlib.tri_compare(ctx, sub, cases, only_flag(impl), mflag, want)
     ctx.record(sub, cases, set(c[:200] for c in cases),
-               "context object filled with 0xAA, Init, Update*, Final, then every byte of the real struct inspected "
-               "(ASan build and plain -O2 build); compared with the all-zero context the model returns",
+               "context object filled with 0xAA, Init (or every field set by hand), Update*, Final, then every byte of the "
+               "real struct inspected (ASan build and plain -O2 build): all zero; same flag from the model, whose Final "
+               "functions zero exactly the fields the interpreter of the regenerated Final bodies reports as wiped",
                samples=[cases[0][:200], cases[-1][:200]])
 
 
